@@ -1268,14 +1268,14 @@ class BytecodeInterpreter(Interpreter):
         # call and change what the next one computes.  Each call starts from the
         # captured value again -- in a namespace of its own, so that another
         # evaluation of the same function (nested through a primitive, or on
-        # another thread) does not see this one's stores.  Numbers, booleans
-        # and contexts are read again too: left as the first evaluation found
-        # them, a name rebound since would make the result depend on whether
-        # the function had been evaluated before.
+        # another thread) does not see this one's stores.  Everything else is
+        # read again too -- numbers, booleans, contexts, helper functions and
+        # other Python objects: left as the first evaluation found them, a
+        # name rebound since would make the result depend on whether the
+        # function had been evaluated before.
         captured = {
             str(var): to_value(func.env[str(var)])
             for var in func.ast.free_vars
-            if not isinstance(fn.__globals__.get(str(var)), Foreign)
         }
         if captured:
             call = types.FunctionType(
